@@ -101,6 +101,7 @@ var loopPolicies = []loopPolicy{
 	{"errbase", "GetAllSafeDetails", "all", "every layer contributes its details"},
 	{"report", "visitAllMulti", "all", "every node of the tree is visited"},
 	{"errbase", "UnwrapAll", "all", "walks to the root cause"},
+	{"errbase", "RegisterTypeMigration", "all", "every registry entry that points at the renamed key must be re-targeted"},
 }
 
 var rLoopExits = &Rule{
